@@ -43,6 +43,11 @@ def chain(seed, k, tier):
                         s.convert(h, u, src, amt, "PEG", track=False)
     # PEG requests in batches that are rejected when they come up for execution (source never funded, amount above the balance, a
     # one-way destination in the same batch): a rejected batch takes no part in the bank's distribution and gets neither PEG nor refund
+    # a request so small that its share of an oversubscribed bank rounds to nothing: it gets 0 PEG and its whole input back
+    tiny = s.key("T1")
+    s.burn(2, tiny, 10**8)
+    for h in (L["ConvLimit"] + 1, L["ConvLimit"] + 3, L["V4"] + 1, L["V4"] + 3):
+        s.convert(h, tiny, "pFCT", 1 + h % 3, "PEG", track=False)
     poor = s.key("P1")
     for h in (L["ConvLimit"] + 2, L["V4"] + 2, L["V4"] + 3):
         s.convert(h, poor, "pXBT", rnd.choice([4000, 20000]) * 10**8, "PEG", track=False)            # holds no pXBT at all
